@@ -224,6 +224,37 @@ def gate(F, R):
             R.ob('C12.gate', 'call|publish-flag|constant-updates', False,
                  'the streaming flag is overwritten with a computed value: a payload chunk (not a PUBLISH) clears it while the stream is still in progress (stall in ready())', cl.loc(bi))
     R.floor('C12.gate', 'publish flag updates', n, 2)
+    # the bypass must end with the stream: either set(true) is conditional on more than is_publish()
+    # (payload incomplete) or the flag is cleared after the inner call completed / at the final chunk
+    ready_edges = [(a['switch'], a['ready']) for a in await_points(cl)]
+    clears_after = [bi for bi, t in cl.calls_to(r'^std::cell::Cell::<T>::set$') if (call_recv_path(cl, t, 0) or ('',))[-1] == 'publish' and const_val(t['args'][1]) == 0
+                    and any(edge_dominates(cl, s_, t_, bi) for s_, t_ in ready_edges)]
+    trues = [bi for bi, t in cl.calls_to(r'^std::cell::Cell::<T>::set$') if (call_recv_path(cl, t, 0) or ('',))[-1] == 'publish' and const_val(t['args'][1]) == 1]
+    extra_cond = False
+    for bi in trues:
+        doms = [d_ for d_ in cl.dom.get(bi, ()) if cl.blocks[d_]['term']['k'] == 'switch' and any(edge_dominates(cl, d_, tg, bi) for tg in cl.succ[d_])]
+        extra_cond = extra_cond or len(doms) >= 2
+    R.ob('C12.gate', 'call|publish-flag|bypass-ends-with-the-stream', bool(clears_after) or extra_cond,
+         'the limiter bypass flag is raised for every PUBLISH (also one whose payload arrived inline) and is cleared only by a later packet that is neither PUBLISH nor chunk: '
+         'for back-to-back PUBLISH packets ready() never waits for capacity, so more than max_receive handlers run at once')
+    # admission must be counted before the dispatcher asks for readiness again: a call future that is spawned
+    # without having been polled has not taken its CounterGuard yet
+    csb = F.one(r'^io::DispatcherInner::<P, C, U, E>::call_service$')
+    cn = [(bi, t) for bi, t in csb.calls_to(r'ntex_service::PipelineBinding::<S, R>::call_nowait$')]
+    R.ob('C12.gate', 'io::call_service|call_nowait-sites', len(cn) == 1, 'found %d' % len(cn))
+    for bi, t in cn:
+        L = t['dest']['l']
+        polls = set()
+        for pb, pt in csb.calls_to(r'as std::future::Future>::poll$'):
+            og = Origin(csb, transparent=re.compile(TRANSPARENT_CALLS.pattern[:-2] + r'|new)$')).of_operand(pt['args'][0])
+            if any(l[0] == 'call' and l[1].endswith('call_nowait') for l in og):
+                polls.add(pb)
+        for xb, xj, st in csb.assigns():
+            rv = st['rv']
+            if rv['k'] == 'agg' and rv.get('agg') in ('coroutine', 'closure') and any(op_place(f) and op_place(f)['l'] == L for f in rv['fields']):
+                R.ob('C12.gate', 'io::call_service|spawned-call|polled-before-spawn', csb.must_pass(polls, xb),
+                     'a handler call is handed to a spawned task without having been polled: InFlightServiceImpl::call takes its CounterGuard only when first polled, so the next readiness check '
+                     'still sees the old count and several requests already buffered are all admitted (max_receive exceeded for packets arriving in one read)', csb.loc(xb))
 
 
 def recvmax(F, R):
@@ -341,7 +372,21 @@ def wiring(F, R):
         R.ob('C12.wiring', '%s|middleware-constructed' % ver, found, 'InFlightServiceImpl::new not found in %s::default' % ver)
 
 
+def counted_set_shrinks(F, R):
+    """The set compared with Receive Maximum must lose an id on every final acknowledgement (imports the
+    C11.release rule for the v5 dispatchers): otherwise a peer within its Receive Maximum is refused."""
+    import c11, runner
+    rep = runner.Report('C11', 'quick')
+    for d in all_dispatchers(F):
+        if d.ver == 'v5':
+            c11.release(F, rep, d)
+    bad = [i for i in rep.items if not i['ok']]
+    R.ob('C12.recvmax', 'v5|counted-set-released-on-every-final-ack (C11.release)', not bad,
+         'ids stay in the set compared with Receive Maximum after their acknowledgement was produced: %s' % '; '.join(i['key'] for i in bad)[:400])
+
+
 def run(F, R):
+    counted_set_shrinks(F, R)
     counter(F, R)
     gate(F, R)
     recvmax(F, R)
